@@ -17,23 +17,29 @@ type c14Variant struct {
 	n      int
 	prefix string
 	racev  bool
+	order  string // "": encode and decode interleaved per value; "enc-first": every value is encoded before the first decode of the process; "dec-first": the converse
 }
 
 func c14Variants(tier string) []c14Variant {
 	v := []c14Variant{
-		{"n50", 50, "T", false},
-		{"n500-zq", 500, "Zq", false},
-		{"n5000", 5000, "T", false},
-		{"n500-racevariant", 500, "Aa", true},
+		{"n50", 50, "T", false, ""},
+		{"n500-zq", 500, "Zq", false, ""},
+		{"n5000", 5000, "T", false, ""},
+		{"n500-racevariant", 500, "Aa", true, ""},
+		{"n800-encfirst", 800, "T", false, "enc-first"},
+		{"n800-decfirst", 800, "T", false, "dec-first"},
 	}
 	if tier == "thorough" {
 		v = append(v,
-			c14Variant{"n20000", 20000, "T", false},
-			c14Variant{"n5000-aa", 5000, "Aa", false},
-			c14Variant{"n2000-zq", 2000, "Zq", false},
-			c14Variant{"n5000-racevariant", 5000, "T", true},
-			c14Variant{"n200", 200, "Mid", false},
-			c14Variant{"n10000-zq", 10000, "Zq", false},
+			c14Variant{"n20000", 20000, "T", false, ""},
+			c14Variant{"n5000-aa", 5000, "Aa", false, ""},
+			c14Variant{"n2000-zq", 2000, "Zq", false, ""},
+			c14Variant{"n5000-racevariant", 5000, "T", true, ""},
+			c14Variant{"n200", 200, "Mid", false, ""},
+			c14Variant{"n10000-zq", 10000, "Zq", false, ""},
+			c14Variant{"n5000-encfirst", 5000, "Zq", false, "enc-first"},
+			c14Variant{"n5000-decfirst", 5000, "Zq", false, "dec-first"},
+			c14Variant{"n800-encfirst-racevariant", 800, "T", true, "enc-first"},
 		)
 	}
 	return v
@@ -99,7 +105,9 @@ func c14Prepare(e *runner.Env, tier string) ([]runner.Job, error) {
 				return
 			}
 			defer os.RemoveAll(dir)
-			os.WriteFile(filepath.Join(dir, "main.go"), []byte(strings.Replace(string(tmpl), `"VARIANT"`, fmt.Sprintf("%q", v.name), 1)), 0o644)
+			src := strings.Replace(string(tmpl), `"VARIANT"`, fmt.Sprintf("%q", v.name), 1)
+			src = strings.Replace(src, `"ORDER"`, fmt.Sprintf("%q", v.order), 1)
+			os.WriteFile(filepath.Join(dir, "main.go"), []byte(src), 0o644)
 			os.WriteFile(filepath.Join(dir, "types_gen.go"), []byte(c14Source(v)), 0o644)
 			out := filepath.Join(e.WorkDir, "c14-"+v.name)
 			args := []string{"build", "-o", out}
@@ -150,7 +158,7 @@ func c14Prepare(e *runner.Env, tier string) ([]runner.Job, error) {
 func init() {
 	add(&runner.Spec{
 		Prop: "C14",
-		Rule: "a family of generated programs (quick: 50, 500, 5000 types and a 500-type program in the race-build source variant; thorough adds 200, 2000, 5000, 10000, 20000 with other name prefixes), each defining N named struct types with distinct members plus named slice/map types and unnamed slice, pointer-map and array composites, linked densely by the linker. In every program, for every compiled-in value by value and by pointer (ascending, cold then warm; descending after a cache reset), for 300+300 run-time types created before and after first use, and for run-time types whose heap descriptors are steered (by growing the heap) to alias the address window modulo 2^32: the binding hooks must see every value handled by the program of its own type and no decoder slot claimed by two types, and Marshal/Unmarshal must give encoding/json's result for the type-specific sentinel.",
+		Rule: "a family of generated programs (quick: 50, 500, 5000 types, a 500-type program in the race-build source variant, and two 800-type programs that encode every value before the first decode of the process / decode every value before the first encode; thorough adds 200, 2000, 5000, 10000, 20000 with other name prefixes), each defining N named struct types with distinct members plus named slice/map types and unnamed slice, pointer-map and array composites, linked densely by the linker. In every program, for every compiled-in value by value and by pointer (ascending, cold then warm; descending after a cache reset), for 300+300 run-time types created before and after first use, and for run-time types whose heap descriptors are steered (by growing the heap) to alias the address window modulo 2^32: the binding hooks must see every value handled by the program of its own type and no decoder slot claimed by two types, and Marshal/Unmarshal must give encoding/json's result for the type-specific sentinel.",
 		StatesAre: "distinct failure kinds",
 		Assume:    append([]string{"linux/amd64, go1.23.5 linker layout; other linkers and architectures are out of scope", "binding hooks (build tag verif) are called on every return of CompileToGetCodeSet / CompileToGetDecoder"}, commonAssume...),
 		Prepare:   c14Prepare,
